@@ -20,7 +20,7 @@ func init() {
 			r.frameCondition("interp")
 			r.deferShape()
 		},
-		Covered: []string{"frame condition on every run-time closure: generation-time (captured) state is read-only"},
+		Covered: []string{"frame condition on every run-time closure: generation-time (captured) state is read-only", "one fresh frame per call of a script function (call, getFunc, genFunctionWrapper)", "frame locks of runCfg's deferred function (shared with C06)"},
 		Uncov:   []string{"schedules and output equality under interleavings", "races the script itself causes inside frame data", "aliasing through locals (c := captured; c[i] = ...) is not tracked"},
 		Trusted: []string{"T1 go toolchain, go/types", "T2 govc frame checker"},
 	})
@@ -62,7 +62,7 @@ func init() {
 	register(&PropDef{
 		ID: "C10", Patterns: []string{"./interp"},
 		Extra:   func(r *Run) { r.idWriters() },
-		Covered: []string{"Execute refreshes the root frame id before any run", "resizeFrame leaves ids untouched", "entry obligation of host-callable wrappers (expected findings)", "run-id gate of runCfg in both loops (frame currentness demanded from callers only)"},
+		Covered: []string{"Execute refreshes the root frame id before any run", "resizeFrame leaves ids untouched", "entry obligation of host-callable wrappers (expected findings)", "run-id gate of runCfg in both loops (frame currentness demanded from callers only)", "Interpreter.run: the frame listens to the done channel of the current run"},
 		Uncov:   []string{"whole histories of evaluations; symbol tables after a cancelled compile phase"},
 		Trusted: trusted,
 	})
@@ -75,8 +75,8 @@ func init() {
 			r.restrictedTables()
 			r.fixStdlibShape()
 		},
-		Covered: []string{"default table lacks unsafe/syscall/os/exec", "exit entry points bound to the restricted replacements, which never return normally and call no exiting function", "no unwrapped *log.Logger is handed out (function results and variables)", "Getenv/LookupEnv/Setenv/Unsetenv/Clearenv implement the map model over interp.env", "shape of the stream/argument redirection closures of fixStdlib"},
-		Uncov:   []string{"Environ (map iteration multiset) and ExpandEnv (delegation to os.Expand)", "Options.Env parsing in New", "cmd/yaegi flag gating", "loggers reachable through struct fields (http.Server.ErrorLog) or interfaces"},
+		Covered: []string{"default table lacks unsafe/syscall/os/exec", "exit entry points bound to the restricted replacements, which never return normally and call no exiting function", "no unwrapped *log.Logger is handed out (function results and variables)", "Getenv/LookupEnv/Setenv/Unsetenv/Clearenv implement the map model over interp.env", "Environ lists exactly the map; ExpandEnv expands through the map's Getenv, never the host's", "shape of the stream/argument redirection closures of fixStdlib"},
+		Uncov:   []string{"Options.Env parsing in New", "cmd/yaegi flag gating", "loggers reachable through struct fields (http.Server.ErrorLog) or interfaces"},
 		Trusted: []string{"T1 go toolchain, go/types, solvers", "T2 govc", "T5 log.Panic* panic without exiting; fmt.Fprint* write only to their writer"},
 	})
 }
@@ -88,7 +88,7 @@ func init() {
 			r.deferShape()
 		},
 		Covered: []string{"runCfg's deferred function runs every deferred entry once, in order (on normal exit; the exceptional exit is a known finding)", "recover reads/clears only the caller frame", "defer producers push-front a fresh record", "defer arguments are copies (syntactic obligation; known finding)", "Execute/EvalWithContext convert every panic into interp.Panic carrying the original value", "restricted exit functions never return normally", "`defer panic(v)` must wait for the function exit (known finding)", "frame locks: released on every explicit exit of runCfg's deferred function; not held across deferred calls (known finding)"},
-		Uncov:   []string{"which run-time faults reflect raises", "panic position in the output", "callBin's defer branch (its closure is selected among eight; contract not written)"},
+		Uncov:   []string{"which run-time faults reflect raises", "panic position in the output", "callBin's defer branch beyond the argument copy"},
 		Trusted: []string{"T1 go toolchain, solvers", "T2 govc", "reflect.Value.Call applies its receiver once and may panic", "T5 log.Panic* panic"},
 	})
 }
@@ -105,8 +105,8 @@ func init() {
 func init() {
 	register(&PropDef{
 		ID: "C03", Patterns: []string{"./interp"}, Specs: []string{"ops", "consts"},
-		Covered: []string{"representableConst for every integer kind and every integer constant", "constant folders: untyped operands fold to go/constant's operation with the spec token (QUO_ASSIGN exactly for untyped integer results); typed operands compute the kind's operation", "typed constant overflow must be rejected (known finding)", "representableConst for float, complex, string and bool kinds", "convertConst / convertConstantValue / genValueAs: single rounding per target kind, no refusal of representable constants", "representable / convertUntyped imply representableConst; return statement, comparison operand and send statement (finding) demand representability"},
-		Uncov:   []string{"rounding inside go/constant (its functions are uninterpreted)", "iota bookkeeping and implicit repetition (ast/gta/cfg walks)", "literal parsing", "the remaining places where cfg gives a constant a type (composite literal elements, map keys, call arguments go through check.assignment, which is not under contract)"},
+		Covered: []string{"representableConst for every integer kind and every integer constant", "constant folders: untyped operands fold to go/constant's operation with the spec token (QUO_ASSIGN exactly for untyped integer results); typed operands compute the kind's operation", "typed constant overflow must be rejected (known finding)", "representableConst for float, complex, string and bool kinds", "convertConst / convertConstantValue / genValueAs: single rounding per target kind, no refusal of representable constants", "representable / convertUntyped imply representableConst; return statement, comparison operand and send statement (finding) demand representability", "constant builtins len/complex/real/imag", "assignment and index rules of typecheck.go (shared with C12)"},
+		Uncov:   []string{"rounding inside go/constant (its functions are uninterpreted)", "iota bookkeeping and implicit repetition (ast/gta/cfg walks)", "literal parsing", "the remaining places where cfg gives a constant a type (composite literal elements, map keys, call arguments: they go through check.assignment, which is under contract, but the call sites are not)"},
 		Trusted: []string{"T1 go toolchain, solvers", "T2 govc", "T4 go/constant computes exact constant arithmetic (BinaryOp/UnaryOp/Shift/ToInt uninterpreted functions of the token; BitLen(x) <= k iff |x| < 2^k)", "T3 reflect.Value model"},
 	})
 }
@@ -115,8 +115,8 @@ func init() {
 	register(&PropDef{
 		ID: "C19", Patterns: []string{"./interp"},
 		Extra: func(r *Run) { r.debuggerFrame() },
-		Covered: []string{"both loops of runCfg apply exec closures only behind the run-id gate (shared with C09)", "Debugger.exec/enterCall/exitCall assign only debugger state (f.debug, goroutine records, dbg.*)", "setBreakOnLine/setBreakOnCall set exactly their own flag; the visitor of SetBreakpoints keeps function breakpoints in the line pass and vice versa", "Debugger.exec: per-node stop decision against a ghost trace of the event callback (breakpoints always reported, step filters)", "node tracking of the debugger loop (known finding: code-pointer comparison; tie-break pinned)"},
-		Uncov:   []string{"order of events across nodes and goroutines", "the terminate event", "Step/Continue request handling outside Debugger.exec"},
+		Covered: []string{"both loops of runCfg apply exec closures only behind the run-id gate (shared with C09)", "Debugger.exec/enterCall/exitCall assign only debugger state (f.debug, goroutine records, dbg.*)", "setBreakOnLine/setBreakOnCall set exactly their own flag; the visitor of SetBreakpoints keeps function breakpoints in the line pass and vice versa", "Debugger.exec: per-node stop decision against a ghost trace of the event callback (breakpoints always reported, step filters)", "node tracking of the debugger loop (known finding: code-pointer comparison; tie-break pinned)", "originalExecNode: the last matching node in walk order", "Step/Continue/setMode: resume requests reach the goroutine they name, mode and depth as requested"},
+		Uncov:   []string{"order of events across nodes and goroutines", "the terminate event and Interrupt"},
 		Trusted: []string{"T1 go toolchain, solvers", "T2 govc", "A3 sequential semantics"},
 	})
 }
@@ -125,8 +125,8 @@ func init() {
 	register(&PropDef{
 		ID: "C12", Patterns: []string{"./interp"},
 		Extra:   func(r *Run) { r.compilePhaseEffects(); r.opTables() },
-		Covered: []string{"eval reaches Execute only after compileSrc returned no error", "compile-phase functions reach no execution function in the static call graph (importSrc reported separately)", "exec closures are applied only at run time", "assignableTo: identical types accepted, distinct defined types rejected", "comparison: comparable / ordered / nil rules", "convertibleTo: exactly the admitted conversions"},
-		Uncov:   []string{"the other type rules of typecheck.go and the operator admissibility tables", "implements against the Go spec", "name resolution errors in cfg.go/gta.go", "calls through function values and interfaces in the call graph"},
+		Covered: []string{"eval reaches Execute only after compileSrc returned no error", "compile-phase functions reach no execution function in the static call graph (importSrc reported separately)", "exec closures are applied only at run time", "assignableTo: identical types accepted, distinct defined types rejected", "comparison: comparable / ordered / nil rules", "convertibleTo: exactly the admitted conversions", "op / shift / conversion / assignment / index / typeAssertionExpr / sliceExpr rules", "operator admissibility tables (ground)", "binaryExpr: operands of arithmetic have identical types"},
+		Uncov:   []string{"the remaining type rules of typecheck.go (composite literals, builtins, range, arguments)", "implements against the Go spec", "name resolution errors in cfg.go/gta.go", "calls through function values and interfaces in the call graph"},
 		Trusted: []string{"T1 go toolchain, solvers", "T2 govc", "itype.equals/underlying/id are pure functions of their receiver"},
 	})
 }
@@ -141,8 +141,8 @@ func init() {
 	})
 	register(&PropDef{
 		ID: "C16", Patterns: []string{"./interp"},
-		Covered: []string{"importSrc: already imported => recorded name returned, no evaluation step; cycle check precedes every evaluation step and yields an error; success registers the package; relative imports of main resolve against '.' for nested packages", "previousRoot: every ancestor below GOPATH/src is searched for a vendor directory through the supplied file system, nearest first"},
-		Uncov:   []string{"pkgDir and effectivePkg (path-segment manipulation): not under contract", "real vs. virtual filesystem equivalence beyond previousRoot's lookups"},
+		Covered: []string{"importSrc: already imported => recorded name returned, no evaluation step; cycle check precedes every evaluation step and yields an error; success registers the package; relative imports of main resolve against '.' for nested packages", "previousRoot: every ancestor below GOPATH/src is searched for a vendor directory through the supplied file system, nearest first", "pkgDir: vendor of the importer first, then GOPATH/src, then the enclosing roots"},
+		Uncov:   []string{"effectivePkg (path-segment manipulation): not under contract", "real vs. virtual filesystem equivalence beyond previousRoot's lookups"},
 		Trusted: []string{"T1 go toolchain, solvers", "T2 govc"},
 	})
 }
@@ -151,8 +151,8 @@ func init() {
 	register(&PropDef{
 		ID: "C18", Patterns: []string{"./extract"},
 		Extra:   func(r *Run) { r.extractShape() },
-		Covered: []string{"fixConst: exact textual value and token per constant kind, helper imports recorded", "classification switch of genContent: constants and functions by value, variables by address, types as types, generic objects skipped (shape obligations)", "qualifier: every foreign package printed is imported", "constraint-interface test on the complete method set"},
-		Uncov:   []string{"method-string synthesis (params/args/results), template rendering and format.Source", "that the output compiles for every package", "float constants are printed from a big.Float (see C14 finding)"},
+		Covered: []string{"fixConst: exact textual value and token per constant kind, helper imports recorded", "classification switch of genContent: constants and functions by value, variables by address, types as types, generic objects skipped (shape obligations)", "qualifier: every foreign package printed is imported", "constraint-interface test on the complete method set", "wrapper method strings: parameters, variadic last parameter, arguments, results, receiver qualification"},
+		Uncov:   []string{"template rendering and format.Source", "build-tag line synthesis (genBuildTags)", "that the output compiles for every package", "float constants are printed from a big.Float (see C14 finding)"},
 		Trusted: []string{"T1 go toolchain, solvers", "T2 govc", "fmt.Sprintf is a pure function of its arguments; go/constant ExactString/String are distinct pure functions"},
 	})
 }
@@ -160,8 +160,8 @@ func init() {
 func init() {
 	register(&PropDef{
 		ID: "C04", Patterns: []string{"./interp"},
-		Covered: []string{"single assignment copies content into the existing location", "define (:=) allocates a new location holding the copy and leaves the previous one untouched", "multi-assignment reads every right-hand side into a fresh temporary before the first write (first loop of the swap-safe closure)", "slice expressions: operands in order", "spread argument of a variadic call shares the caller's slice"},
-		Uncov:   []string{"sequences of operations (the property's history quantifier)", "other call argument copies, range copies, composite literals, append/copy builtins, map element update", "reflect's own copy semantics (T3)"},
+		Covered: []string{"single assignment copies content into the existing location", "define (:=) allocates a new location holding the copy and leaves the previous one untouched", "multi-assignment reads every right-hand side into a fresh temporary before the first write (first loop of the swap-safe closure)", "slice expressions: operands in order", "spread argument of a variadic call shares the caller's slice", "len/cap/append/copy/delete builtins, address-of and dereference, map index, map and array literals: result against the reflect model (append: one growth for all values)"},
+		Uncov:   []string{"sequences of operations (the property's history quantifier)", "other call argument copies, range copies, struct composite literals, map element update through getIndexMap2, make/new", "reflect's own copy semantics (T3)"},
 		Trusted: []string{"T1 go toolchain, solvers", "T2 govc", "T3 reflect.Value model (Set copies content, New allocates)", "value functions are pure lookups returning pre-state locations"},
 	})
 }
@@ -169,8 +169,8 @@ func init() {
 func init() {
 	register(&PropDef{
 		ID: "C07", Patterns: []string{"./interp"},
-		Covered: []string{"script calling a host function from a multi-value assignment: each result is stored in a new slot for a newly declared variable and in place for a redeclared or assigned one (slot identity, for every position)", "plain host call: result i is stored in slot findex+i, func results replace the slot, no other slot is touched", "frame ids of wrapper frames (shared with C09/C10)"},
-		Uncov:   []string{"host -> script argument transfer and result slice of genFunctionWrapper/getFunc", "argument vector preparation of callBin (getBinValue, variadic, interface wrapping)", "Execute's wrapping of function results, Use table copy", "reflect.Call itself"},
+		Covered: []string{"script calling a host function from a multi-value assignment: each result is stored in a new slot for a newly declared variable and in place for a redeclared or assigned one (slot identity, for every position)", "plain host call: result i is stored in slot findex+i, func results replace the slot, no other slot is touched", "frame ids of wrapper frames (shared with C09/C10)", "callBin argument vectors (variadic spread, interface wrapping by the first implemented interface of getMapType)", "genFunctionWrapper: host arguments land in the parameter slots, results are read from the result slots"},
+		Uncov:   []string{"getFunc's result slice", "genInterfaceWrapper", "Execute's wrapping of function results, Use table copy", "reflect.Call itself"},
 		Trusted: []string{"T1 go toolchain, solvers", "T2 govc", "T3 reflect.Value model", "value functions are pure lookups; destinations of one assignment are distinct slots (assumed)"},
 	})
 }
